@@ -16,6 +16,25 @@ class Unsupported(Exception):
     pass
 
 
+class AnalysisTimeout(Exception):
+    """The real analysis did not reach a fixed point within the time limit."""
+
+
+@contextlib.contextmanager
+def time_limit(seconds):
+    import signal
+
+    def handler(signum, frame):
+        raise AnalysisTimeout()
+    old = signal.signal(signal.SIGALRM, handler)
+    signal.alarm(seconds)
+    try:
+        yield
+    finally:
+        signal.alarm(0)
+        signal.signal(signal.SIGALRM, old)
+
+
 def _mods():
     from malt.pyct import anno, cfg, qual_names, transformer
     from malt.pyct.static_analysis import activity, annos, reaching_definitions, reaching_fndefs, type_inference
@@ -123,7 +142,7 @@ class Analysis:
             self.graphs = m['cfg'].build(node)
             node = m['rd'].resolve(node, ctx, self.graphs)
             node = m['fnd'].resolve(node, ctx, self.graphs)
-            with _recording(m['ti'].Analyzer, self.analyzers):
+            with _recording(m['ti'].Analyzer, self.analyzers), time_limit(20):
                 node = m['ti'].resolve(node, ctx, self.graphs, self.resolver)
         except (NotImplementedError, AssertionError, AttributeError, KeyError, ValueError, TypeError) as e:
             raise Unsupported('%s: %s' % (type(e).__name__, e))
@@ -478,8 +497,9 @@ class _Instr(ast.NodeTransformer):
         if fi is not None and fi.env['is_local']:
             local = set(fi.env['bound']) - set(fi.env['nonlocals'])
             cl = self.an.closure_anno.get(sid, {})
+            captured = set(read_names(fi.fdef))       # only variables the function (or a function nested in it) reads
             for x in sorted(cl):
-                if x in local:
+                if x in local or x not in captured:
                     continue
                 lam = ast.Lambda(args=ast.arguments(posonlyargs=[], args=[], vararg=None, kwonlyargs=[], kw_defaults=[], kwarg=None, defaults=[]),
                                  body=ast.Name(id=x, ctx=ast.Load()))
